@@ -365,7 +365,25 @@ def _must_be_fresh(sim, op):
         own = tgt.GetUnit()
     except Exception:
         return False
-    return M.current_spelling(unit) != own
+    if M.current_spelling(unit) == M.current_spelling(own):
+        return False
+    # two different symbols whose conversions are both the identity function (the base unit and a
+    # unit registered as its synonym) hand the container through untouched: exempt as well
+    try:
+        import numpy
+
+        from barril.units.unit_database import UnitDatabase
+
+        db = UnitDatabase.GetSingleton()
+        qt = tgt.GetQuantityType()
+        probe = numpy.array([1.0])
+        a = db.GetInfo(qt, own).tobase(probe)
+        b = db.GetInfo(qt, unit).frombase(a)
+        if b is probe:
+            return False
+    except Exception:
+        return False
+    return True
 
 
 class ValidityWatch(Monitor):
